@@ -16,6 +16,12 @@ CLAIMED = {
                 ref='DESIGN.md §4 C10'),
 }
 
+CLAIMED['C19'] = dict(tech='compiler-computed layouts for a (T,C) grid + paired-update / who-writes rule + derive table + accessor/iterator delegation matching',
+    text='Static: rustc layout_of for the row type of DenseMatrix<T,C> over 8 element types x 12 column counts (align 32, size multiple of align and of size_of(T), '
+         'size >= C*size_of(T), array at offset 0); every length change of the row vector is paired with the same row-count update; Clone/PartialEq/Eq are derived; '
+         'Index/IndexMut/iterators/ravel/fill/from_rows matched against their defining relations. Holds for every operation sequence because each mutator preserves the invariant.',
+    ref='DESIGN.md §4 C19')
+
 NA = {
     'C11': 'numeric agreement of a tabulated distribution with the exact tail probability: quantifies over run-time floating-point values; no sound static argument in reach (DESIGN.md §6)',
     'C12': 'bounds computed probability ranges by exact tail probabilities at a granularity: run-time numerics, no structural necessary condition (DESIGN.md §6)',
